@@ -48,6 +48,30 @@ def big_stack():
     if hard != resource.RLIM_INFINITY and hard < want:
         want = hard
     resource.setrlimit(resource.RLIMIT_STACK, (want, hard))
+    # harness processes run in their own sessions (so that a stalled worker can be killed together with the
+    # child it forked): make sure they still die with the driver
+    try:
+        import ctypes
+        ctypes.CDLL("libc.so.6", use_errno=True).prctl(1, 9, 0, 0, 0)   # PR_SET_PDEATHSIG, SIGKILL
+    except Exception:
+        pass
+
+
+def group_cpu_seconds(pgid):
+    """user+system CPU seconds consumed so far by the live processes of a process group (from /proc)"""
+    tot = 0.0
+    tick = os.sysconf("SC_CLK_TCK")
+    for d in os.listdir("/proc"):
+        if not d.isdigit():
+            continue
+        try:
+            f = open("/proc/%s/stat" % d).read()
+            rest = f[f.rindex(")") + 2:].split()
+            if int(rest[2]) == pgid:          # field 5 = pgrp
+                tot += (int(rest[11]) + int(rest[12])) / tick   # fields 14, 15 = utime, stime
+        except (OSError, ValueError, IndexError):
+            pass
+    return tot
 
 
 def fnv64(data):
@@ -105,16 +129,26 @@ def run_replay(binary, prop, path, known=True, extra=None, timeout=300, trace=Fa
         env["VERIF_NOCATCH"] = "1"
     if env_extra:
         env.update(env_extra)
-    import resource
-    ru0 = resource.getrusage(resource.RUSAGE_CHILDREN)
+    # the replay runs in its own process group (the schedule families fork a child per case): on a time-out the
+    # whole group is examined and killed
+    proc = subprocess.Popen(cmd, stdout=subprocess.PIPE, stderr=subprocess.PIPE, env=env, cwd="/", preexec_fn=big_stack, start_new_session=True)
     try:
-        r = subprocess.run(cmd, stdout=subprocess.PIPE, stderr=subprocess.PIPE, env=env, timeout=timeout, cwd="/", preexec_fn=big_stack)
-    except subprocess.TimeoutExpired as e:
+        out_b, err_b = proc.communicate(timeout=timeout)
+    except subprocess.TimeoutExpired:
         # blocked (no CPU used) or merely slow (CPU-bound)?  Only the first is a hang; slow is not wrong.
-        ru1 = resource.getrusage(resource.RUSAGE_CHILDREN)
-        cpu = (ru1.ru_utime + ru1.ru_stime) - (ru0.ru_utime + ru0.ru_stime)
-        return {"rc": None, "json": None, "stderr": (e.stderr or b"").decode("latin1"), "crashed": False, "timeout": True, "sig": "hang",
+        cpu = group_cpu_seconds(proc.pid)
+        try:
+            os.killpg(proc.pid, signal.SIGKILL)
+        except OSError:
+            pass
+        out_b, err_b = proc.communicate()
+        return {"rc": None, "json": None, "stderr": (err_b or b"").decode("latin1"), "crashed": False, "timeout": True, "sig": "hang",
                 "cpu_bound": cpu > 0.3 * timeout}
+
+    class _R:
+        pass
+    r = _R()
+    r.stdout, r.stderr, r.returncode = out_b, err_b, proc.returncode
     out = r.stdout.decode("latin1")
     err = r.stderr.decode("latin1")
     js = None
@@ -234,7 +268,7 @@ class Worker:
         if os.path.exists(avoid):
             cmd += ["--avoid", avoid]
         self.errpath = os.path.join(self.logdir, "w%d.stderr" % self.wid)
-        self.proc = subprocess.Popen(cmd, stdout=subprocess.DEVNULL, stderr=open(self.errpath, "ab"), env=env, cwd="/", preexec_fn=big_stack)
+        self.proc = subprocess.Popen(cmd, stdout=subprocess.DEVNULL, stderr=open(self.errpath, "ab"), env=env, cwd="/", preexec_fn=big_stack, start_new_session=True)
         self.started = time.time()
 
     def count_cases(self):
@@ -268,7 +302,10 @@ def run_campaign(binary, prop, plan, lenscale, seed, thorough, param, logdir, ma
                 if time.time() - w.started > stall_s:
                     n = w.count_cases()
                     if n == w.done_cases:   # no progress for stall_s seconds
-                        w.proc.kill()
+                        try:
+                            os.killpg(w.proc.pid, signal.SIGKILL)   # the worker and the child it forked for the case
+                        except OSError:
+                            w.proc.kill()
                         w.proc.wait()
                         cur = os.path.join(logdir, "w%d.cur" % w.wid)
                         keep = os.path.join(logdir, "w%d.hang%d.case" % (w.wid, w.attempt))
@@ -485,7 +522,8 @@ def check(prop, tier):
             if st.get("workers"):
                 plan = [plan[0]] * st["workers"]
             pre[si] = run_campaign(bins[st["binary"]], prop, plan, st.get("lenscale", 1), seed, thorough,
-                                   st.get("param_per_worker") or st.get("param", ""), logdir, sem=sem)
+                                   st.get("param_per_worker") or st.get("param", ""), logdir, sem=sem,
+                                   stall_s=st.get("stall_s", 300))
 
         ths = [threading.Thread(target=run_stage, args=(si, st)) for si, st in enumerate(stages) if st.get("engine") != "libfuzzer"]
         serial = os.environ.get("VERIF_SERIAL_STAGES")
